@@ -42,11 +42,14 @@ def family(tier):
         for variant in ("blob", "text"):
             fam.append(dict(variant=variant, vec_enabled=True, grp_enabled=True, depth=1, ndev=2, ngroups=2, connect=order))
             fam.append(dict(variant=variant, vec_enabled=True, grp_enabled=True, depth=1, ndev=1, ngroups=2, connect=order, announce=True))
+    # the wall clock that stamps the device's messages steps BACK before every operation (NTP step, VM resume)
+    for variant in ("text", "number-printf", "switch-OneOfMany", "light", "blob"):
+        fam.append(dict(variant=variant, vec_enabled=True, grp_enabled=True, depth=1, ndev=1, ngroups=2, clock="back"))
     return fam
 
 
 def deployment_of(p):
-    return DP.deployment(**{k: v for k, v in p.items() if k not in ("write_veto", "connect", "dead_peer", "announce")})
+    return DP.deployment(**{k: v for k, v in p.items() if k not in ("write_veto", "connect", "dead_peer", "announce", "clock")})
 
 
 def shards(tier, seed):
@@ -155,6 +158,9 @@ class Run:
             self.blob_strict = {}  # a fresh definition carries no payload
 
     def apply(self, op):
+        if self.p.get("clock") == "back":
+            self.nops = getattr(self, "nops", 0) + 1
+            self.w.now_value = "2023-12-31T23:%02d:00" % max(0, 50 - 10 * self.nops)
         r = self._apply(op)
         if r != "skipped":
             self._note_blob(op)
